@@ -72,12 +72,14 @@ Section Sn2D.
         + (gget g i (S j) - two * T + gget g i (j - 1)) / dr2 in
     T + s_alpha0 P * s_dt P * (rpart + zpart).
 
-  Definition cool_step2 (g : grid) (Tsh : A) (qe : list A) : grid :=
+  Definition cool_step2_gen (inplace : bool) (g : grid) (Tsh : A) (qe : list A) : grid :=
     let row0 := nth 0 g [] in let rowN := nth (Nz - 1) g [] in
     let Tb := map (fun x => x + s_K P * (Tsh - x) * s_dz P / s_lam0 P) row0 in
     let Tt := map (fun xq => fst xq + snd xq * s_dz P / s_lam0 P) (combine rowN qe) in
     let Te := map (fun row => let x := nth (Nr - 1) row zero in x + s_Kw P * (Tsh - x) * s_dr P / s_lam0 P) g in
-    sweep true (cool_cell Tb Tt Te) g.
+    sweep inplace (cool_cell Tb Tt Te) g.
+  (* the implementation: T_new and T_k are the same array *)
+  Definition cool_step2 := cool_step2_gen true.
 
   (* ---- solidification stage --------------------------------------------------------------------------- *)
   Definition cp2 (w : A) : A := s_cps P * s_sf P + s_cpi P * w + s_cpw P * (one - s_sf P - w).
